@@ -526,7 +526,22 @@ def at(x, path):
 
 
 MAKERS = {'comps': (g_comp, COMP_NAMES), 'svcs': (g_svc, SVC_NAMES), 'ifs': (g_if, IF_NAMES), 'subs': (g_sub, SUB_NAMES)}
-EDITS = ['add', 'remove', 'lab', 'cap', 'ud', 'equal_ud', 'shuffle', 'none_empty', 'readd_same', 'new_id']
+EDITS = ['add', 'remove', 'lab', 'cap', 'ud', 'equal_ud', 'shuffle', 'none_empty', 'readd_same', 'new_id', 'add_lookalikes']
+
+# families of DISTINCT (resource_name, node_id) identities that any concatenating / defaulting identity would conflate:
+# one target string split at different '-' positions; the "NONE" default of __hash__ spelled out in a name or an id;
+# node_id None vs '' vs 'NONE' (on different names, a dict holds each name once)
+LOOKALIKES = [
+    [('nic-1', 'ab12'), ('nic', '1-ab12')],
+    [('xy-zz-7', 'ab12'), ('xy-zz', '7-ab12'), ('xy', 'zz-7-ab12')],
+    [('pq-rs', None), ('pq', 'rs-NONE')],
+    [('pq-rs', ''), ('pq', 'rs-NONE'), ('pq-rs-NONE', None)],
+    [('NONE', 'NONE-NONE'), ('NONE-NONE', None), ('NONE-NONE-NONE', 'x')],
+    [('ab.cd', 'NONE'), ('ab.cd-NONE', None)],
+    [('ab cd', 'e-f'), ('ab cd-e', 'f')],
+    [('p1', 'id-1'), ('p1-id', '1')],
+]
+
 
 
 def edit(rng, a, b, allow_shape=True):
@@ -565,6 +580,29 @@ def edit(rng, a, b, allow_shape=True):
     attr = rng.choice(attrs)
     ch = s.get(attr)
     maker, names = MAKERS[attr]
+    if kind == 'add_lookalikes':
+        # several elements added in ONE edit whose (name, node_id) pairs are distinct but look alike
+        fam = [x for x in rng.choice(LOOKALIKES)]
+        if attr in ('svcs', 'comps'):
+            fam = [(n.replace(' ', '_'), i) for n, i in fam]       # service names (also the derived NIC service) allow no blank
+        assert len({n for n, _ in fam}) == len(fam)
+        have = {c['name'] for c in (ch or [])}
+        if any(n in have for n, _ in fam):
+            return None
+        parent = at(b, p[:-1]) if p else None
+        new = []
+        for n, i in fam:
+            if s['k'] == 'svc':
+                ded = (parent['type'] == 'SmartNIC') if (parent is not None and parent['k'] == 'comp') else None
+                x = g_if(rng, n, ded)
+            else:
+                x = maker(rng, n)
+            x['id'] = i
+            new.append(x)
+        s[attr] = (ch or []) + new
+        if rng.random() < 0.3:
+            rng.shuffle(s[attr])
+        return 'add_lookalikes:' + attr
     if kind == 'add':
         free = [n for n in names + [n + 'x' for n in names] if n not in {c['name'] for c in (ch or [])}]
         if not free:
